@@ -53,6 +53,12 @@ def nextOf (d : Db) (after : Int) : Int :=
   | some a => a.next
   | none => 0
 
+/-- the descendants `playlist_table::remove` reads from the recursive view (when that read succeeds) -/
+def removedBelow (d : Db) (c : Int) : List Int :=
+  match descendantIds d.pl c with
+  | .ok ds => ds
+  | _ => []
+
 /-- reads and writes of the call (without the BEGIN / COMMIT of its scope) -/
 def body (d : Db) : Op → Prog
   | .createRoot name => [.read, wPlAdd name 0 0]
@@ -75,7 +81,7 @@ def body (d : Db) : Op → Prog
         else [.read, .read, wPlUpdate c row.val row.key row.next]
     | none => [.read]
   | .removeCrate c =>
-    .read :: .read :: ((c :: descendantIds d.pl c).map wClearKey ++ (c :: descendantIds d.pl c).map wDeleteList)
+    .read :: .read :: ((c :: removedBelow d c).map wClearKey ++ (c :: removedBelow d c).map wDeleteList)
   | .createTrack => [tot fun d => (step d .createTrack).1]
   | .removeTrack t => (ids d.pl).map (fun l => wRemoveFromList l t) ++ [wDeleteTrack t]
   | .addTrack c t =>
